@@ -116,11 +116,15 @@ def _history(runs):
         if not h.symbolic:
             return
         env = dict(os.environ, PYVC_REPO=os.environ.get("PYVC_REPO", "/repo"))
-        p = subprocess.run([PY, os.path.join(VERIF, "replay", "history_fuzz.py"), "20260928", str(runs)], capture_output=True, text=True,
-                           timeout=3000, cwd=VERIF, env=env)
-        lines = [l for l in p.stdout.strip().splitlines() if l.startswith("{")]
-        res = json.loads(lines[-1]) if p.returncode == 0 and lines else {}
-        h.oblige("the exploration ran on the package's interpreter", bool(res), detail=(p.stdout[-300:] + p.stderr[-300:]))
+        try:
+            p = subprocess.run([PY, os.path.join(VERIF, "replay", "history_fuzz.py"), "20260928", str(runs)], capture_output=True, text=True,
+                               timeout=240 if runs <= 1000 else 1500, cwd=VERIF, env=env)
+            lines = [l for l in p.stdout.strip().splitlines() if l.startswith("{")]
+            res = json.loads(lines[-1]) if p.returncode == 0 and lines else {}
+            tail = p.stdout[-300:] + p.stderr[-300:]
+        except subprocess.TimeoutExpired:
+            res, tail = {}, "the exploration did not finish within its wall-clock limit (the real code spins or blocks)"
+        h.oblige("the exploration ran to the end on the package's interpreter", bool(res), detail=tail)
         if not res:
             return
         st = res.get("stats", {})
